@@ -597,6 +597,8 @@ where
                                 invert: false,
                                 unicode_icase: self.flags.unicode && self.flags.icase,
                             });
+                            // An assertion is not an atom: it cannot be quantified.
+                            quantifier_allowed = false;
                         }
                         // Term :: Assertion :: \B
                         'B' => {
@@ -605,6 +607,7 @@ where
                                 invert: true,
                                 unicode_icase: self.flags.unicode && self.flags.icase,
                             });
+                            quantifier_allowed = false;
                         }
                         // Term :: Atom :: \ AtomEscape :: CharacterEscape :: c AsciiLetter
                         // Term :: ExtendedAtom :: \ [lookahead = c]
